@@ -102,7 +102,7 @@ static void fresh(void)
 
 int main(void)
 {
-	static char line[8192], a1[4096], a2[64], a3[64], a4[64];
+	static char line[8192], a1[4096], a2[4096], a3[64], a4[64];
 	setvbuf(stdout, NULL, _IOFBF, 1 << 16);
 	fresh();
 	while (fgets(line, sizeof line, stdin)) {
@@ -123,7 +123,7 @@ int main(void)
 			continue;
 		}
 		a1[0] = a2[0] = a3[0] = a4[0] = 0;
-		na = sscanf(line + 1, " %4095s %63s %63s %63s", a1, a2, a3, a4);
+		na = sscanf(line + 1, " %4095s %4095s %63s %63s", a1, a2, a3, a4);
 		(void)na;
 		printf("op %s\n", line);
 		fflush(stdout);
